@@ -122,7 +122,16 @@ impl HuffScen {
         let mut cx = Cx::default();
         let mut pop: Vec<Hc<B>> = vec![Hc { c: Default::default(), coded: false, accept: BTreeSet::new(), lens: BTreeMap::new(), stats: BTreeMap::new(), model: Vec::new(), generation: 0 }];
         let prop = self.prop;
-        let fail = |o: &str, step: usize, d: String| Some((format!("C{prop:02}/huff/{o}"), step, d));
+        let allowed = move |o: &str| -> bool {
+            match prop {
+                1 => matches!(o, "just-pushed-item-differs" | "just-pushed-differs" | "push-refused-inside-statistics" | "refused-representable-input" | "merge-panicked"),
+                2 => matches!(o, "earlier-item-differs"),
+                _ => true,
+            }
+        };
+        let fail = move |o: &str, step: usize, d: String| -> Option<(String, usize, String)> {
+            if allowed(o) { Some((format!("C{prop:02}/huff/{o}"), step, d)) } else { Some((format!("foreign/{o}"), step, d)) }
+        };
         let conv = |item: &[u32]| -> (Vec<B>, Vec<u32>) {
             let syms: Vec<u32> = item.iter().map(|x| x % (B::max_sym() + 1)).collect();
             (syms.iter().map(|x| B::from_u32(*x)).collect(), syms)
@@ -407,8 +416,11 @@ impl HuffScen {
                         if !do_push!(ni, &vals, &syms, 0u8, step) {
                             unreachable!("in-contract push cannot be refused without failing");
                         }
-                        let ((s, e), _, _) = pop[ni].model.last().unwrap();
-                        lens.insert(*sym, e - s);
+                        {
+                            let ((s, e), _, _) = pop[ni].model.last().unwrap();
+                            lens.insert(*sym, e - s);
+                        }
+                        reread!(ni, false, step);
                     }
                     // every symbol at least one bit; Kraft; optimality
                     if let Some((sym, _)) = lens.iter().find(|(_, l)| **l == 0) {
@@ -506,11 +518,20 @@ impl Scenario for HuffScen {
         ops
     }
     fn exec(&self, ops: &[HOp]) -> SOut {
+        let mut out = {
         if self.wide {
             self.run::<u16>(ops)
         } else {
             self.run::<u8>(ops)
         }
+    };
+        if let Some(f) = &out.fail {
+            if f.0.starts_with("foreign/") {
+                out.foreign = Some(f.0.clone());
+                out.fail = None;
+            }
+        }
+        out
     }
     fn op_json(&self, op: &HOp) -> J {
         match op {
